@@ -497,8 +497,25 @@ func checkC11Fresh(c *Ctx, p *Program) {
 				}
 				cc := ci.Common()
 				cal := cc.StaticCallee()
-				if cal == nil || !inlinable(cal) {
+				if cal == nil {
 					continue
+				}
+				// a standard-library writer (math/big receivers, copy targets ...): the summary table says which
+				// arguments it writes
+				var extW map[int]bool
+				if !inlinable(cal) {
+					// only for exported receiver types: their values can be copied by callers, so two values may hold
+					// the same pointer; an unexported type handled by pointer only keeps "one owner per pointee"
+					if !exportedRecv(f) {
+						continue
+					}
+					extW = map[int]bool{}
+					for _, i := range externalWrites(p.staticCalleeName(cc), len(cc.Args)) {
+						extW[i] = true
+					}
+					if len(extW) == 0 {
+						continue
+					}
 				}
 				for i, a := range cc.Args {
 					ld, ok := a.(*ssa.UnOp)
@@ -513,9 +530,13 @@ func checkC11Fresh(c *Ctx, p *Program) {
 						continue
 					}
 					writes := false
-					for _, w := range p.Mod().of(cal) {
-						if w.Root == fmt.Sprintf("param#%d", i) {
-							writes = true
+					if extW != nil {
+						writes = extW[i]
+					} else {
+						for _, w := range p.Mod().of(cal) {
+							if w.Root == fmt.Sprintf("param#%d", i) {
+								writes = true
+							}
 						}
 					}
 					if !writes {
@@ -1500,4 +1521,18 @@ func checkC11ArrayView(c *Ctx, p *Program) {
 	if n == 0 {
 		c.ok("C11.retain", "no array pointer converted from a slice is kept in a field", "0 sites", "")
 	}
+}
+
+// exportedRecv: the receiver of f is (a pointer to) an exported named type.
+func exportedRecv(f *ssa.Function) bool {
+	r := f.Signature.Recv()
+	if r == nil {
+		return false
+	}
+	t := r.Type()
+	if pt, ok := t.(*types.Pointer); ok {
+		t = pt.Elem()
+	}
+	n, ok := t.(*types.Named)
+	return ok && n.Obj().Exported()
 }
